@@ -813,7 +813,11 @@ def _process_checks(prop: str, ctx: Ctx, stats: Stats, cmds, only=None):
         want = field(sem, "rows")
         same = (rows == want) if ordered else (_ms(rows) == _ms(want))
         if not same:
-            out.append(Violation(prop, "processed-rows-differ-from-direct-evaluation",
+            kind = "processed-rows-differ-from-direct-evaluation"
+            if field(sem, "f04") == "T":
+                # built by back-tracking a projection past a deduplication (known finding F04)
+                kind += ":projection-moved-past-deduplication"
+            out.append(Violation(prop, kind,
                                  f"{cmds[k]}: executed {rows}, direct evaluation gives {want}; tree {src['tree_text']}"))
     return out
 
